@@ -5,6 +5,7 @@
   Go source.
 -/
 import YtkModel.Decisions2
+import YtkProofs.DecisionsDocSet
 import YtkModel.Generated.Tables2
 
 set_option linter.unusedSimpArgs false
@@ -110,36 +111,6 @@ theorem mod2op_wellformed (ptr : String → Ptr.Path) (m : Mod) :
       · simp [Handler.needsValue]
 
 end Ytk.Xform
-
-/-! ## analytics -/
-namespace Ytk.DocSet
-
-theorem addContext_eq_table {δ : Type} (s : State δ) (name : String) (doc : δ) (newCtx : Ctx δ) :
-    addContext s name doc newCtx = addContextT s name doc newCtx := by
-  unfold addContext addContextT
-  cases hx : AMap.get? s.ctxMap name with
-  | none => simp [addArmOf, addArms, List.lookup, AddStep.run]
-  | some ex =>
-    cases hm : newCtx.mergeFn with
-    | none => simp [addArmOf, addArms, List.lookup, AddStep.run, hm]
-    | mergeTags =>
-      simp [addArmOf, addArms, List.lookup, AddStep.run, hm]
-      cases newCtx.doc <;> rfl
-    | mustCreate => simp [addArmOf, addArms, List.lookup, AddStep.run, hm]
-
-/-- what the options do to the context under construction -/
-theorem applyOpt_effects {δ : Type} (ctx : Ctx δ) :
-    (∀ ts, applyOpt ctx (.withTags ts) = { ctx with tags := ctx.tags ++ ts }) ∧
-    applyOpt ctx .mergeTags = { ctx with mergeFn := .mergeTags } ∧
-    applyOpt ctx .mustCreate = { ctx with mergeFn := .mustCreate } :=
-  ⟨fun _ => rfl, rfl, rfl⟩
-
-/-- applyOpts: the default options first, then the caller's, starting from the empty context -/
-theorem applyOpts_order {δ : Type} (opts : List Opt) :
-    (applyOpts opts : Ctx δ) = (defaultOpts ++ opts).foldl applyOpt ⟨none, [], .none⟩ := by
-  simp [applyOpts, List.foldl_append]
-
-end Ytk.DocSet
 
 /-! ## k8s -/
 namespace Ytk.K8s
